@@ -46,7 +46,11 @@ func Digraph(X []int, R []Relation,
 }
 
 func Union(a []int, b []int) []int {
-	c := b
+	// work on a copy of b: appending to b itself can write into a backing
+	// array that b shares with the sets of other nodes (F[x] = FP[x] and
+	// F[top] = F[x] in Traverse share slices), which corrupted their contents
+	c := make([]int, len(b), len(b)+len(a))
+	copy(c, b)
 	for _, v := range a {
 		found := false
 		for _, u := range b {
